@@ -706,3 +706,7 @@ def r5(ctx):
         ok = len(c_.generators) == 1 and not g_.ifs and isinstance(g_.target, ast.Name) and src(g_.iter) in feature_lists and src(c_.elt) == f'{g_.target.id}[1] - {g_.target.id}[0]'
     mx = mxs
     ctx.emit('C16-R5', ok, FEATURES, mx[0] if mx else f, f'longest feature: `{src(mxv)[:80] if mxv is not None else None}`', key='sort:max-feature-size', nontrivial=False)
+
+
+from . import shared as _shared
+_shared.register('C16', 'C16')
